@@ -2,8 +2,8 @@
 
 PROP = dict(
     level="proof",
-    lean_modules=['PopsModel.Props.C03', 'PopsModel.Props.NonVacuous.Host'],
-    theorems=['Pops.C03_totals_step', 'Pops.C03_totals_move', 'Pops.C03_cohorts_step_partial', 'Pops.C03_cohorts_full_fails', 'Pops.C03_mortality_never_fails', 'Pops.C03_cohorts_move'],
+    lean_modules=['PopsModel.Props.C03', 'PopsModel.Props.NonVacuous.Host', 'PopsModel.Props.RunModel'],
+    theorems=['Pops.C03_totals_step', 'Pops.C03_totals_move', 'Pops.C03_cohorts_step_partial', 'Pops.C03_cohorts_full_fails', 'Pops.C03_mortality_never_fails', 'Pops.C03_cohorts_move', 'Pops.C02_C03_run'],
     commands=[],
     runs={
         "quick": [('h_host', 'pool', 0, 1500), ('h_host', 'treat', 0, 400), ('h_model', 'model', 0, 400), ('h_mmodel', 'multi', 0, 150), ('h_sim', 'sim', 0, 150)],
